@@ -21,7 +21,7 @@ UNIT = {
     "prelude": ["prelude.rs"],
     "specs": ["charreader.spec"],
     "broadcast_use": ["ax_utf8::axiom_utf8_error_shape", "ax_utf8::axiom_utf8_prefix_error_stable", "ax_utf8::axiom_utf8_incomplete",
-                      "ax_utf8::axiom_utf8_empty_ok", "ax_utf8::axiom_len_utf8"],
+                      "ax_utf8::axiom_utf8_empty_ok", "ax_utf8::axiom_len_utf8", "ax_utf8::axiom_utf8_first_is_prefix"],
     "items": [
         {"block": "struct", "header": r"struct CharReader < R >", "file": F, "rewrites": ["strip_type_head", ("replace", "SmallVec<[u8; 32]>", "ByteBuf", "R7")]},
         {"block": "struct", "header": r"struct BadUtf8Error", "file": F, "rewrites": ["strip_type_head"]},
@@ -36,5 +36,7 @@ UNIT = {
         m("put_back_char", CHARREAD, extra=[("replace", "c.encode_utf8(&mut self.buf[self.pos..]);", "buf_encode_utf8(&mut self.buf, self.pos, c);", "R6"),
                                             ("replace", "&[0u8; 4/* char::MAX_LEN_UTF8 once msrv reached 1.93 */][..c_len - self.pos]", "zeros(c_len - self.pos)", "R6")]),
         m("consume", CHARREAD),
+        {"fn": "read_char", "within": ["trait", r"trait CharRead"], "file": F, "emit_name": "read_char", "rewrites": STD,
+         "wrap_pre": "impl<R: Read> CharReader<R> {\n", "wrap_post": "}\n"},
     ],
 }
